@@ -79,7 +79,7 @@ func oracle(s tcpx.Spec, o *tcpx.Obs, x *vrt.Exec, needFollower int) (string, []
 	if len(fs) > 0 {
 		return "generic", fs
 	}
-	if len(o.Recovered) > 0 {
+	if len(o.Recovered) > 0 && !s.FailFirst {
 		add("recovered-panic", "a handler panicked (recovered by the server): %v", o.Recovered)
 	}
 	if !o.ServeOK {
@@ -96,7 +96,7 @@ func oracle(s tcpx.Spec, o *tcpx.Obs, x *vrt.Exec, needFollower int) (string, []
 		st := "<none>"
 		if co.Rec != nil {
 			st = co.Rec.Status()
-			if len(co.Rec.Closed) != 1 {
+			if len(co.Rec.Closed) != 1 && !(s.FailFirst && i == 0) {
 				add("closed-count", "connection %d: AddClosed called %d times", i, len(co.Rec.Closed))
 			}
 		}
@@ -178,6 +178,18 @@ func gridShutdown() []tcpx.Spec {
 	return []tcpx.Spec{
 		{Concurrent: true, StopEarly: true, Conns: []tcpx.ConnSpec{ok, {Class: "cipher", Cipher: 0}}},
 		{Concurrent: true, StopEarly: true, Conns: []tcpx.ConnSpec{ok, {Class: "ok", Cipher: 2, Up: 1, Down: 1}}},
+		// the listener comes from a listener manager (shared socket with its own accept goroutine)
+		{Concurrent: true, StopEarly: true, Shared: true, Conns: []tcpx.ConnSpec{ok, {Class: "ok", Cipher: 2, Up: 1, Down: 1}}},
+	}
+}
+
+// a failure while handling one connection (the handler panics and StreamServe recovers): the other
+// connection is served, and serving still stops when the listener closes
+func gridFail() []tcpx.Spec {
+	ok := tcpx.ConnSpec{Class: "ok", Cipher: 1, Up: 12, Down: 20}
+	return []tcpx.Spec{
+		{Concurrent: true, FailFirst: true, Conns: []tcpx.ConnSpec{{Class: "ok", Cipher: 0, Up: 5, Down: 5}, ok}},
+		{FailFirst: true, Conns: []tcpx.ConnSpec{{Class: "ok", Cipher: 0, Up: 5, Down: 5}, ok}},
 	}
 }
 
@@ -204,6 +216,9 @@ func init() {
 		for _, s := range gridShutdown() {
 			engine.ExploreS(ctx, scenarioTCP(s, -1), engine.SConfig{BothPolicies: true, Bound: bound, Shard: ctx.Shard, NShards: ctx.NShards, Deadline: ctx.Deadline})
 		}
+		for _, s := range gridFail() {
+			engine.ExploreS(ctx, scenarioTCP(s, 1), engine.SConfig{Bound: bound, Shard: ctx.Shard, NShards: ctx.NShards, Deadline: ctx.Deadline})
+		}
 		for _, sc := range udpScenarios() {
 			engine.ExploreS(ctx, sc, engine.SConfig{BothPolicies: true, Bound: bound, Shard: ctx.Shard, NShards: ctx.NShards, Deadline: ctx.Deadline})
 		}
@@ -226,6 +241,9 @@ func init() {
 		}
 		for _, s := range gridShutdown() {
 			scs = append(scs, scenarioTCP(s, -1))
+		}
+		for _, s := range gridFail() {
+			scs = append(scs, scenarioTCP(s, 1))
 		}
 		scs = append(scs, udpScenarios()...)
 		return engine.ReplayScenario(scs, rp)
